@@ -359,7 +359,9 @@ pub fn run(tier: Tier) -> i32 {
         // (probe, observable): SQL/error text for every probe, RQ and formatter output where they exist
         let nprobes = PROBES.len();
         let jobs: Vec<(usize, u8)> = (0..nprobes).flat_map(|i| [(i, 0u8), (i, 1u8), (i, 2u8)]).collect();
-        let outs = par_map(&jobs, || (), |_, (i, what)| ho::explore_probe(PROBES[*i], max_devs, *what));
+        // two simultaneous deviations only for the SQL / error text (the RQ and formatter runs see a subset of
+        // the same iteration points): the pair space is quadratic in the number of points
+        let outs = par_map(&jobs, || (), |_, (i, what)| ho::explore_probe(PROBES[*i], if *what == 0 { max_devs } else { 1 }, *what));
         let mut all_sites = std::collections::BTreeSet::new();
         for ((i, what), o) in jobs.iter().zip(outs) {
             if o.replay_diverged {
@@ -382,7 +384,7 @@ pub fn run(tier: Tier) -> i32 {
         }
         // the multi-file projects under the same exploration (the files of a project live in a hash map)
         let projs = projects();
-        let pouts = par_map(&projs, || (), |_, files| ho::explore(&|| compile_tree(files), max_devs));
+        let pouts = par_map(&projs, || (), |_, files| ho::explore(&|| compile_tree(files), 1));
         for (pi, o) in pouts.into_iter().enumerate() {
             if o.replay_diverged {
                 eprintln!("MACHINERY ERROR: the baseline run of project {pi} is not reproducible: the harness does not own every choice");
